@@ -159,7 +159,6 @@ Proof.
   assert (Hpk : parked s = true -> s_ridx s = 0) by (intro Hx; destruct (j1 _ _ HJ Hx) as (_ & x & _); exact x).
   pose proof (j9 _ _ HJ) as (_ & H9).
   unfold handle in H. cbn zeta in H. unfold success_reply. destruct e.
-  - (* start *) unfold flush_pend in H. mi H; bk_facts Hf; bk_close.
-  - Show.
+  - (* start *) unfold flush_pend in H. mi H; bk_facts Hf; try bk_close. Show.
 Abort.
 End Run.
